@@ -69,4 +69,9 @@ MUTANTS = [
     ("scale_equality_bound_forgotten", DM, "                        lb = mc.lb/scale\n                        canon = mc.canon/scale\n                        c = lb==canon", "                        lb = mc.lb\n                        canon = mc.canon/scale\n                        c = lb==canon", ["C14"]),
     ("variable_scale_squared", DM, "            return scale*v", "            return scale*v if DM(scale).is_scalar() else scale*scale*v", ["C14"]),
     ("control_scale_dropped_ms", MS, "self.U.append(vcat([opti.variable(s.numel(), scale=vec(stage._scale[s]), domain=stage._catalog[s]['domain']) for s in stage.controls]) if stage.nu>0 else MX(0,1))", "self.U.append(vcat([opti.variable(s.numel(), scale=vec(stage._scale[s])**(k<2), domain=stage._catalog[s]['domain']) for s in stage.controls]) if stage.nu>0 else MX(0,1))", ["C14"]),
+    # --- C18
+    ("save_drops_param_values", "rockit/ocp.py", "        self._untranscribe()\n        import pickle\n        with rockit_pickle_context():\n            pickle.dump(self,open(name,\"wb\"))", "        self._untranscribe()\n        import pickle\n        keep = dict(self._param_vals.items())\n        for k in list(keep)[1:]: self._param_vals[k] = 0*keep[k]\n        with rockit_pickle_context():\n            pickle.dump(self,open(name,\"wb\"))", ["C18"]),
+    ("load_loses_solver_options", "rockit/ocp.py", "            return pickle.load(open(name,\"rb\"))", "            ret = pickle.load(open(name,\"rb\"))\n            ret._method._solver_options = {k:v for k,v in ret._method._solver_options.items() if 'max_iter' not in k}\n            return ret", ["C18"]),
+    ("load_loses_initial_guesses", "rockit/ocp.py", "            return pickle.load(open(name,\"rb\"))", "            ret = pickle.load(open(name,\"rb\"))\n            ret._initial = type(ret._initial)()\n            return ret", ["C18"]),
+    ("save_resets_grid_of_original", "rockit/ocp.py", "        self._untranscribe()\n        import pickle", "        self._untranscribe()\n        if hasattr(self._method,'time_grid') and hasattr(self._method.time_grid,'_growth_factor'): self._method.time_grid._growth_factor = 1.0\n        import pickle", ["C18"]),
 ]
